@@ -13,7 +13,7 @@ A group template (units/<group>.rs.in) is ordinary Verus text plus `//@` directi
       invariant ...
   //@before [#n] "<anchor text>"                                     ghost text inserted before n-th occurrence
   //@after  [#n] "<anchor text>"                                     ghost text inserted after it
-  //@rewrite <RULE> [xN] "<from>" => "<to>"                          declared semantics-preserving rewrite (W, R6, S1)
+  //@rewrite <RULE> [xN|x*] "<from>" => "<to>"                          declared semantics-preserving rewrite (W, R6, S1)
   //@pre                                                             ghost text at the very start of the body
   //@end
 
@@ -129,18 +129,19 @@ def apply_loop_rule(rule, header, ghost, log, unit):
         if not m:
             raise ExtractError('%s: loop header does not match IT: %s' % (unit, h))
         return '', 'for %s in __it: %s' % (m.group(1), m.group(2)), '', ''
-    if rule in ('R1', 'R1m', 'R1c', 'R1s'):
+    if rule in ('R1', 'R1m', 'R1c', 'R1s', 'R1v'):
         m = re.match(r'for\s*\(\s*(\w+)\s*,\s*(&?)\s*(\w+)\s*\)\s+in\s+(.+?)\s*\.(?:iter|into_iter)\(\)\s*\.enumerate\(\)$', h, re.S)
         if not m:
             raise ExtractError('%s: loop header does not match %s: %s' % (unit, rule, h))
         I, amp, X, E = m.group(1), m.group(2), m.group(3), m.group(4)
-        bound = {'R1': '%s.len()', 'R1m': '%s.rows()', 'R1c': '%s.len()', 'R1s': '%s.len()'}[rule] % E
+        bound = {'R1': '%s.len()', 'R1m': '%s.rows()', 'R1c': '%s.len()', 'R1s': '%s.len()', 'R1v': '%s.len()'}[rule] % E
         nh = 'for %s in 0..%s' % (I, bound)
-        if amp:
+        if amp or rule == 'R1v':
+            # R1v: a Vec of Copy items consumed by value (`.into_iter()`): the item is bound by value
             bp = 'let %s = %s[%s];' % (X, E, I)
         else:
             bp = 'let %s = &%s[%s];' % (X, E, I)
-        log.append({'unit': unit, 'rule': 'R1', 'before': h, 'after': nh + ' { ' + bp + ' .. }'})
+        log.append({'unit': unit, 'rule': rule if rule == 'R1v' else 'R1', 'before': h, 'after': nh + ' { ' + bp + ' .. }'})
         return '', nh, bp, ''
     if rule in ('R3', 'R3m'):
         m = re.match(r'for\s*\(\s*(\w+)\s*,\s*(&?)\s*(\w+)\s*\)\s+in\s+(.+?)\s*\.iter\(\)\s*\.rev\(\)\s*\.enumerate\(\)$', h, re.S)
@@ -189,6 +190,29 @@ def apply_loop_rule(rule, header, ghost, log, unit):
         nh = 'for __i_%s in 0..__v_%s.len()' % (X, X)
         bp = 'let %s = __v_%s[__i_%s];' % (X, X, X)
         log.append({'unit': unit, 'rule': 'R4v', 'before': h, 'after': pre + nh + ' { ' + bp + ' .. } }'})
+        return pre, nh, bp, ' }'
+    if rule == 'R4p':
+        # for (X, Y) in EXPR   (EXPR: a Vec of (Copy, Vec<Copy>) pairs consumed by value; the body only reads Y)
+        #   -> bind the Vec, iterate by index, X by value, Y by reference
+        m = re.match(r'for\s*\(\s*(\w+)\s*,\s*(\w+)\s*\)\s+in\s+(\w+)$', h, re.S)
+        if not m:
+            raise ExtractError('%s: loop header does not match R4p: %s' % (unit, h))
+        X, Y, E = m.group(1), m.group(2), m.group(3)
+        pre = '{ let __v_%s = %s; ' % (X, E)
+        nh = 'for __i_%s in 0..__v_%s.len()' % (X, X)
+        bp = 'let %s = __v_%s[__i_%s].0; let %s = &__v_%s[__i_%s].1;' % (X, X, X, Y, X, X)
+        log.append({'unit': unit, 'rule': 'R4p', 'before': h, 'after': pre + nh + ' { ' + bp + ' .. } }'})
+        return pre, nh, bp, ' }'
+    if rule == 'RZ':
+        # for (X, Y) in A.into_iter().zip(B)   (A: &[T], B: &[U])  ->  indexed loop over the shorter of the two, items by reference
+        m = re.match(r'for\s*\(\s*(\w+)\s*,\s*(\w+)\s*\)\s+in\s+(.+?)\s*\.into_iter\(\)\s*\.zip\(\s*(\w+)\s*\)$', h, re.S)
+        if not m:
+            raise ExtractError('%s: loop header does not match RZ: %s' % (unit, h))
+        X, Y, A, B = m.group(1), m.group(2), m.group(3), m.group(4)
+        pre = '{ let __a_%s = %s; let __n_%s = if __a_%s.len() < %s.len() { __a_%s.len() } else { %s.len() }; ' % (X, A, X, X, B, X, B)
+        nh = 'for __i_%s in 0..__n_%s' % (X, X)
+        bp = 'let %s = &__a_%s[__i_%s]; let %s = &%s[__i_%s];' % (X, X, X, Y, B, X)
+        log.append({'unit': unit, 'rule': 'RZ', 'before': h, 'after': pre + nh + ' { ' + bp + ' .. } }'})
         return pre, nh, bp, ' }'
     if rule == 'R5':
         # for I in (A..=B).rev()
@@ -295,7 +319,7 @@ def transform_body(unit, body, directives, log):
                 raise ExtractError('%s: rewrite `%s` => `%s` is not an instance of rule %s' % (unit, a, b, rule))
             pat = r'\s+'.join(re.escape(tok) for tok in a.split())
             ms = [m for m in re.finditer(pat, body) if mbody[m.start()] == body[m.start()]]
-            if len(ms) != d['count']:
+            if (d['count'] == 0 and not ms) or (d['count'] != 0 and len(ms) != d['count']):
                 raise ExtractError('%s: rewrite `%s` expected %d occurrence(s), found %d' % (unit, a, d['count'], len(ms)))
             for m in ms:
                 edits.append((m.start(), m.end(), b))
@@ -445,9 +469,10 @@ def process(template_path, info, out_lines, depth=0):
                     rest = t[len('//@rewrite '):].strip()
                     rule, rest = rest.split(None, 1)
                     cnt = 1
-                    mm = re.match(r'x(\d+)\s+(.*)', rest)
+                    mm = re.match(r'x(\d+|\*)\s+(.*)', rest)
                     if mm:
-                        cnt, rest = int(mm.group(1)), mm.group(2)
+                        # `x*`: every occurrence (at least one) - for call wrappers whose number of uses may legitimately change
+                        cnt, rest = (0 if mm.group(1) == '*' else int(mm.group(1))), mm.group(2)
                     a, rest = parse_q(rest)
                     rest = rest.strip()
                     if not rest.startswith('=>'):
